@@ -573,7 +573,7 @@ def run_process(program, rep, prefix='C09'):
     site = f.where
     _mark_loop_tests(f)
     dom = CoDomain(program, None, None, 'process')
-    dom.loop_bound = 1
+    dom.loop_bound = PROCESS_LOOP_BOUND
     w = Walker(program, dom)
     exits = w.run(f, cp)
     rep.count('paths', len(exits))
@@ -624,6 +624,13 @@ def run_process(program, rep, prefix='C09'):
                    f'{r["ok"]} path(s)', line=f.node.lineno)
 
 
+PROCESS_LOOP_BOUND = 1
+
+
 def run(program, rep, tier):
+    global PROCESS_LOOP_BOUND
+    # thorough: two consecutive iterations of each loop of process()
+    PROCESS_LOOP_BOUND = 2 if tier == 'thorough' else 1
+    rep.extra['process_loop_bound'] = PROCESS_LOOP_BOUND
     run_methods(program, rep)
     run_process(program, rep)
